@@ -246,7 +246,9 @@ def segmentFileID (L : Lib F T) (s : State F) (id : Id) : State F × Resp F T :=
       (⟨o.1, s.next + 2⟩, o.2)
 
 /-- `decodeSegmentFileRequest` (files.go:708-757): any parse error is a decode error; `none` = the endpoint is not
-reached and `encodeError` answers the wrapped error → 500 -/
+reached and `encodeError` answers the wrapped error; `codeFrom` searches the error *text*, which still names the library
+error type after `fmt.Errorf("D : %v", err)`, so the status is 400 or 500 like any library error (`libErr`; found by the
+`server` correspondence stream: empty body → 500, bad header line → 400) -/
 def decodeSegment (L : Lib F T) (json : Bool) (body : Tok) (opts : Option Opts) : Option F :=
   if json then
     (match L.parseJSON body opts with                                  -- :738
@@ -265,7 +267,7 @@ def withOpts (L : Lib F T) (f : F) : Option Opts → F
 /-- POST /segment: `segmentFileEndpoint` (files.go:649-706); the submitted file is not stored, its parts are -/
 def segmentFile (L : Lib F T) (s : State F) (json : Bool) (body : Tok) (opts : Option Opts) : State F × Resp F T :=
   match decodeSegment L json body opts with
-  | none => (s, ⟨.error, .none⟩)
+  | none => (s, ⟨.libErr, .none⟩)
   | some f =>
     match (svcSegment L (withOpts L f opts)).2 with
     | none => (s, ⟨.libErr, .none⟩)
